@@ -1,0 +1,23 @@
+//go:build verif
+
+package aws
+
+import (
+	"github.com/atlassian/escalator/pkg/cloudprovider"
+	"github.com/aws/aws-sdk-go/service/autoscaling/autoscalingiface"
+	"github.com/aws/aws-sdk-go/service/ec2/ec2iface"
+)
+
+// VerifNewCloudProvider builds the AWS cloud provider over injected service
+// clients: Builder.Build without the AWS session.
+func VerifNewCloudProvider(service autoscalingiface.AutoScalingAPI, ec2Service ec2iface.EC2API, configs ...cloudprovider.NodeGroupConfig) (*CloudProvider, error) {
+	cloud := &CloudProvider{
+		service:    service,
+		ec2Service: ec2Service,
+		nodeGroups: make(map[string]*NodeGroup, len(configs)),
+	}
+	if err := cloud.RegisterNodeGroups(configs...); err != nil {
+		return nil, err
+	}
+	return cloud, nil
+}
